@@ -142,3 +142,60 @@ Definition suite_C06tear (inp obs : list tok) : verdict :=
       {| v_model := [TN 0; TN 1]; v_ok := (torn =? 0); v_wellformed := true |}
   | _, _ => malformed
   end.
+
+(* ---------------------------------------------------------------- requested ordering, the crate's own impls (worker w7) *)
+(* suite C06ordstd: Bytes::store / Bytes::load on the plain integer types, i.e. through the crate's OWN AtomicInteger
+   impls for the std atomics (src/atomic_integer.rs:27-46, impl_atomic_integer_ops!: `self.load(order)` /
+   `self.store(val, order)`).  What reaches std cannot be logged, but std itself REFUSES two orderings per operation:
+   a store asked Acquire / AcqRel and a load asked Release / AcqRel panic inside std ("there is no such thing as
+   an acquire store / a release load").  So the requested ordering is forwarded unchanged only if exactly those
+   requests end in that panic and every other one completes.
+     mode ep ty kind order => st      kind 0 store 1 load; order 0 Relaxed 1 Release 2 Acquire 3 AcqRel 4 SeqCst;
+     ty 0..9 = u8 u16 u32 u64 i8 i16 i32 i64 usize isize;  st 0 done, value right  1 Err  2 panicked  3 wrong value *)
+(* std: core::sync::atomic::atomic_store / atomic_load *)
+Definition std_rejects (kind order : N) : bool :=
+  if kind =? 0 then (order =? 2) || (order =? 3) else (order =? 1) || (order =? 3).
+(* model: atomic_integer.rs:39-45 hands `order` to the std method of the same name *)
+Definition run_C06ordstd (kind order : N) : N := if std_rejects kind order then 2 else 0.
+(* checker, from "with the requested ordering": the request that std refuses is refused, any other completes *)
+Definition ok_C06ordstd (kind order st : N) : bool :=
+  if kind =? 0 then (if (order =? 2) || (order =? 3) then st =? 2 else st =? 0)
+  else (if (order =? 1) || (order =? 3) then st =? 2 else st =? 0).
+Definition suite_C06ordstd (inp obs : list tok) : verdict :=
+  match inp, obs with
+  | [TN md; TN ep; TN ty; TN kind; TN order], [TN st] =>
+      if (ep <=? 2) && (ty <=? 9) && (kind <=? 1) && (order <=? 4) then
+        {| v_model := [TN (run_C06ordstd kind order)]; v_ok := ok_C06ordstd kind order st; v_wellformed := true |}
+      else malformed
+  | _, _ => malformed
+  end.
+
+(* ---------------------------------------------------------------- store-buffering litmus *)
+(* suite C06sb: black-box cross-check on the real library, SeqCst everywhere: thread 0: x := 1; r0 := y,
+   thread 1: y := 1; r1 := x.  Under sequential consistency (every interleaving of the four accesses, see
+   sb_outcomes / C06_sb_forbidden_under_sc) r0 = r1 = 0 cannot happen; a SeqCst store weakened to Release lets it
+   happen on x86.   mode level size rounds => forbidden_seen ran *)
+Inductive sb_ev := SbW0 | SbR0 | SbW1 | SbR1.     (* x := 1 | r0 := y | y := 1 | r1 := x *)
+(* state: x y r0 r1 *)
+Definition sb_step (s : N * N * N * N) (e : sb_ev) : N * N * N * N :=
+  let '(x, y, r0, r1) := s in
+  match e with SbW0 => (1, y, r0, r1) | SbR0 => (x, y, y, r1) | SbW1 => (x, 1, r0, r1) | SbR1 => (x, y, r0, x) end.
+Fixpoint sb_interleave (fuel : nat) (a b : list sb_ev) {struct fuel} : list (list sb_ev) :=
+  match fuel with
+  | O => []
+  | S f =>
+      match a, b with
+      | [], _ => [b]
+      | _, [] => [a]
+      | x :: a', y :: b' => map (cons x) (sb_interleave f a' b) ++ map (cons y) (sb_interleave f a b')
+      end
+  end.
+Definition sb_schedules : list (list sb_ev) := sb_interleave 5 [SbW0; SbR0] [SbW1; SbR1].
+Definition sb_result (l : list sb_ev) : N * N :=
+  let '(_, _, r0, r1) := fold_left sb_step l (0, 0, 2, 2) in (r0, r1).
+Definition suite_C06sb (inp obs : list tok) : verdict :=
+  match inp, obs with
+  | [TN md; TN level; TN size; TN rounds], [TN forb; TN ran] =>
+      {| v_model := [TN 0; TN 1]; v_ok := (forb =? 0); v_wellformed := true |}
+  | _, _ => malformed
+  end.
